@@ -331,8 +331,21 @@ def oracle_encrypt(case, data, padded):
 
 
 def make_mode(case):
-    """Build the pyaes mode object the way a caller would, using defaults where the case says so."""
-    mode, key = case["mode"], case["key"]
+    """Build the pyaes mode object the way a caller would, using defaults where the case says so.  The key is handed over as bytes, or
+    (chosen from the case) in a WRITABLE buffer - bytearray / memoryview - that the caller wipes as soon as the constructor has returned
+    (ordinary key hygiene): the object must go on working with the key it was constructed with."""
+    kt = (len(case["key"]) + len(case.get("data", b"")) + case["key"][0]) % 3
+    if kt == 0:
+        return _make_mode(case, case["key"])
+    buf = bytearray(case["key"])
+    m = _make_mode(case, buf if kt == 1 else memoryview(buf))
+    for i in range(len(buf)):
+        buf[i] = 0xA5
+    return m
+
+
+def _make_mode(case, key):
+    mode = case["mode"]
     if mode == "ecb":
         return aes.AESModeOfOperationECB(key)
     if mode == "cbc":
